@@ -267,3 +267,14 @@ Example c15_nonvacuous_restart :
   restart_pre idH w_host w5c_c (kernel_after idH w_host w5b_c0 1 w_k0) = false /\
   restart_pre idH w_host w5d_c w_k0 = false.
 Proof. exact restart_example_l. Qed.
+
+(** events, the part that is a Run: the AddPolicy / UpdatePolicy handler (syncNetworkPolices; syncNetworkPolicyRules;
+    syncPods with the pod informer started) on a galaxy-written kernel outside the four shapes is accepted, exact,
+    leaves foreign state alone and its result is again galaxy-written.  The DeletePolicy and pod handlers are NOT
+    covered (see the header) *)
+Theorem events_policy_added_exact : forall (H : str -> str) (host : str) (c : cluster) (k : kernel) (m : mgr),
+  galaxy_written H host k -> hash_distinct H host c = true -> partial_pre H host c k = true ->
+  exists m' k', on_policy_added H host c (m, k) = (m', k', true) /\ glx_exact H host c k' = true /\
+    foreign_same k k' = true /\ galaxy_written H host k'.
+Proof. exact policy_added_written. Qed.
+Print Assumptions events_policy_added_exact.
